@@ -22,7 +22,7 @@ RULE = ("seeded random schemas (composite / single / no primary key over INT and
 
 
 def count(evs):
-    n = sum(1 for e in evs if e["ev"] == "stmt" and "uniq" in e.get("tags", []) or "pkN" in e.get("tags", []))
+    n = sum(1 for e in evs if e["ev"] == "stmt" and ("uniq" in e.get("tags", []) or "pkN" in e.get("tags", []) or "pk1" in e.get("tags", [])))
     return {"statements_on_keyed_tables": n}
 
 
